@@ -64,9 +64,15 @@ Inductive obj :=
 | OBool (b : bool)
 | OSeq (items : list obj)                       (* any other Iterable *)
 | ONone                                         (* None *)
+| OSet (items : list string)                    (* a set / frozenset of strings, in the iteration order of THIS process *)
 | OOther (descr : string) (iter_raises : bool). (* any other value: no branch applies and nothing is appended
                                                    (numpy integer / float32 / bool scalars, complex, ...); an
                                                    Iterable whose iteration raises (0-d array) raises *)
+
+(* sorted(value, key=str) on strings: insertion sort by code point order *)
+Fixpoint sinsert (x : string) (l : list string) : list string :=
+  match l with [] => [x] | y :: r => if String.leb x y then x :: l else y :: sinsert x r end.
+Fixpoint ssort (l : list string) : list string := match l with [] => [] | x :: r => sinsert x (ssort r) end.
 
 Inductive sel := SFields (fs : list string) | SAll | SCtor (args excl : list string).
 
@@ -125,6 +131,7 @@ Section Walk.
     | OSeq l => (fix go (l : list obj) : list string :=
                    match l with [] => [] | x :: r => tokens x ++ go r end) l
     | ONone => []
+    | OSet l => if sets_sorted then ssort l else l
     | OOther _ _ => []
     end.
 End Walk.
@@ -257,6 +264,7 @@ Fixpoint obj_eqb (a b : obj) : bool :=
          | _, _ => false
          end) l m
   | ONone, ONone => true
+  | OSet l, OSet m => slist_eqb l m
   | OOther d r, OOther d' r' => String.eqb d d' && Bool.eqb r r'
   | _, _ => false
   end.
